@@ -48,7 +48,11 @@ func init() {
 func plainUplink(r *rand.Rand) ([]byte, string) {
 	switch r.Intn(8) {
 	case 0:
-		return nasTestpacket.GetSecurityModeComplete(rbytes(r, r.Intn(120))), "SecurityModeComplete"
+		n := r.Intn(120)
+		if r.Intn(10) == 0 { // the NAS message container is an LV-E of up to 65535 octets: sizes around buffer sizes and powers of two
+			n = pick(r, 255, 256, 2040+r.Intn(20), 4090+r.Intn(12), 8192, 16383, 16384, 32768, 65000, 300+r.Intn(60000))
+		}
+		return nasTestpacket.GetSecurityModeComplete(rbytes(r, n)), "SecurityModeComplete"
 	case 1:
 		return nasTestpacket.GetSecurityModeComplete(nil), "SecurityModeComplete(no container)"
 	case 2:
@@ -327,6 +331,7 @@ func runC06(c *fw.Case) (o fw.Outcome) {
 		}
 		o.Count("protected_messages_verified", 1)
 		o.Max("highest_count_seen", int64(shadow))
+		o.Max("longest_plain_message_octets", int64(len(plain)))
 	}
 	return
 }
